@@ -29,6 +29,8 @@ BROKEN = {
     "badclause": {"a.go": "packag badclause\n\nfunc F(s string) bool { return len(s) >= 0 }\n"},
     "badimportpath": {"a.go": "package badimportpath\n\nimport \"bad path!\"\n\nfunc F(s string) bool { return len(s) >= 0 }\n",
                       "b.go": "package badimportpath\n\nimport x \"bad path!\"\n\nvar _ = x.Y\n"},
+    # legal, not broken: a package *named* lib_test that has an in-package test file (pkgload classifies units by the name suffix)
+    "pkgnamedtest": {"a.go": "package lib_test\n\nfunc F(s string) bool { return len(s) >= 0 }\n", "a_test.go": "package lib_test\n\nimport \"testing\"\n\nfunc TestF(t *testing.T) { _ = F(\"\") }\n"},
     "cycle": {"a.go": "package cycle\n\ntype A struct{ b B }\ntype B struct{ a A }\n\nfunc F(a A) A { return a }\nvar x = y\nvar y = x\n"},
 }
 
@@ -123,6 +125,9 @@ def run(tier):
             continue
         if CRASH_RE.search(txt):
             m = re.search(r"\n(github\.com/go-critic/go-critic/[^\s(]+)\(", txt)
+            if not m:
+                # the first frame of the trace that is not the runtime's (a dependency, or package main)
+                m = next((x for x in re.finditer(r"\n([A-Za-z][\w./-]*\.[^\s(]+)\(", txt) if not x.group(1).startswith(("runtime.", "panic", "testing."))), None)
             res.add_violation("crash:%s:%s:%s" % (kind, fe, m.group(1).split("/")[-1] if m else label), "%s %s crashed with a Go panic/trace" % (b, " ".join(argv)), case)
             continue
         if kind == "config":
